@@ -23,7 +23,8 @@ EXPLANATION = (
     "SourcedMessage, and data dependence of offsets yielded from compressed wrappers. Each rule is a necessary "
     "condition of the delivery property; whole-history gap freedom is not decided."
 )
-SHARED = [('C13', ['R1', 'R5'], 'stop() cancels the pending processor invocation (a restart cannot overlap it) and the shutdown flag never leaks into the next run (whose first reply would be dropped)'), ('C03', ['R5', 'R6'], 'a committed offset - 0 included - is the position after which the consumer resumes'), ('C13', ['R9'], 'the processor is never invoked from a continuation that runs because stop() cancelled a Deferred (previous result still pending)'), ('C05', ['R4'], 'compressed wrappers are decoded completely and by the right codec'), ('C12', ['R3', 'R7'], 'a partial trailing message is never skipped: too-small signal, buffer grows, same offset refetched'), ('C14', ['R4', 'R5', 'R7'], 'the offset-reset policy is the only discontinuity; buffer growth refetches the same offset'), ('C03', ['R2'], 'a cancelled block is not followed by another invocation: stop() must not feed the next block')]
+SHARED = [('C13', ['R4'], 'the only restart is stop() then start(): start() on a consumer that was not stopped is refused (an in-flight reply would be taken for the new position)'),
+          ('C13', ['R1', 'R5'], 'stop() cancels the pending processor invocation (a restart cannot overlap it) and the shutdown flag never leaks into the next run (whose first reply would be dropped)'), ('C03', ['R5', 'R6'], 'a committed offset - 0 included - is the position after which the consumer resumes'), ('C13', ['R9'], 'the processor is never invoked from a continuation that runs because stop() cancelled a Deferred (previous result still pending)'), ('C05', ['R4'], 'compressed wrappers are decoded completely and by the right codec'), ('C12', ['R3', 'R7'], 'a partial trailing message is never skipped: too-small signal, buffer grows, same offset refetched'), ('C14', ['R4', 'R5', 'R7'], 'the offset-reset policy is the only discontinuity; buffer growth refetches the same offset'), ('C03', ['R2'], 'a cancelled block is not followed by another invocation: stop() must not feed the next block')]
 ASSUMPTIONS = [
     "Twisted: a failed/pending Deferred yielded in an inlineCallbacks generator suspends the generator",
     "KafkaClient.send_* return Deferreds; the broker's log order is ground truth (not modelled)",
@@ -437,8 +438,8 @@ MUTANTS = [
     {"id": "parked-dropped", "file": "consumer.py",
      "old": "            self._msg_block_d.addCallback(lambda _: self._handle_fetch_response(responses))\n            self._msg_block_d.addErrback(self._handle_fetch_error)\n            return",
      "new": "            return", "expect": "C02.R4"},
-    {"id": "no-yield", "file": "consumer.py", "old": "                yield d\n                if self._stopping or self._start_d is None or self._start_d.called:",
-     "new": "                if self._stopping or self._start_d is None or self._start_d.called:", "expect": "C02.R2"},
+    {"id": "no-yield", "file": "consumer.py", "old": "                yield d\n                if self._stopping or self._start_d is not start_d or start_d.called:",
+     "new": "                if self._stopping or self._start_d is not start_d or start_d.called:", "expect": "C02.R2"},
     {"id": "fetch-unguarded", "file": "consumer.py",
      "old": "        if self._request_d:\n            log.debug(\"_do_fetch: Outstanding request: %r\", self._request_d)\n            return\n",
      "new": "", "expect": "C02.R5"},
